@@ -45,7 +45,7 @@ func execSign(f []string) (string, string) {
 	out := dkgrun.RunDKG(dkgrun.DkgConfig{
 		N: n, HonestThreshold: t, Excluded: excluded, Seed: seed,
 		Session: fmt.Sprintf("%s-1", seed.Text(16)), Duplicate: true, Rng: rng,
-		Timeout: 3 * time.Minute,
+		Timeout: 150 * time.Second,
 	})
 	selected := make([]chain.Address, n)
 	for i := range selected {
@@ -117,7 +117,7 @@ func execSign(f []string) (string, string) {
 	var verdicts []string
 	for si, sub := range subsets {
 		so := dkgrun.RunSigning(rng, msg, fmt.Sprintf("%s-%d", msg.Text(16), si), len(finalSeats), t,
-			sub, finalSeats, shares, 3*time.Minute)
+			sub, finalSeats, shares, 150*time.Second)
 		v := "ok"
 		var first *tecdsa.Signature
 		for _, fi := range sub {
